@@ -14,16 +14,18 @@ import ChessVerif.Proofs.SearchSoftHardGo
 namespace ChessVerif.Props.C08
 open ChessVerif Search
 
-variable {σ π : Type}
+variable {σ π : Type} [PsInv σ]
 
 /-- A hard budget `N ≥ 0` is never exceeded: if the caller's counter starts at `nodes0 ≤ N`
     (0 when the search allocates it), the counter is `≤ N` when `go` returns — for every component,
     table content, depth, stop arrival and fuel. -/
 theorem nodes_le_budget (c : Comp σ π) (L : Limits) (clock : Clock) {Good : Board → Prop} (hl : Laws c Good)
-    (fuel : Nat) (e : Engine σ) (b : Board) (hg : Good b) (nodes0 : Int) (hN : 0 ≤ L.nodes) (h0 : nodes0 ≤ L.nodes) :
+    (fuel : Nat) (e : Engine σ) (b : Board) (hg : Good b) (hok : PsInv.ok e.ps) (nodes0 : Int) (hN : 0 ≤ L.nodes)
+    (h0 : nodes0 ≤ L.nodes) :
     (go c L clock fuel e b nodes0).st.nodes ≤ L.nodes :=
-  (go_post c L clock hl fuel e b hg nodes0).nodes hN h0
+  (go_post c L clock hl fuel e b hg hok nodes0).nodes hN h0
 
+omit [PsInv σ] in
 /-- With `softTime ≤ 0` the result (score, move, ponder move, every reported line with its time
     field blanked, node counter, tables, PV buffer, flags) does not depend on the clock oracle.
     In the model the stop signal and the ponder hit arrive at *poll indices* that are part of `L`,
@@ -52,10 +54,11 @@ def C08_full_soft_eq_hard (c : Comp σ π) (clock : Clock) (Good : Board → Pro
 example (K : Keys) (clock : Clock) (fuel : Nat) (e : Engine Unit) :
     (go (demoComp K) { depth := 5, nodes := 100, softNodes := 0, softTime := 0, stop := some 7, ponder := none, output := true }
       clock fuel e Board.empty).st.nodes ≤ 100 :=
-  nodes_le_budget (demoComp K) _ clock (demo_laws K) fuel e Board.empty noMen_empty 0 (by decide) (by decide)
+  nodes_le_budget (demoComp K) _ clock (demo_laws K) fuel e Board.empty noMen_empty trivial 0 (by decide) (by decide)
 
 /-! ### soft node limit ≡ hard node budget (`Proofs/SearchSoftHard{Q,AB,Go}.lean`) -/
 
+omit [PsInv σ] in
 /-- Soft ≡ hard, strong form.  Let `r` be a search without hard node budget, stop channel and ponder
     channel, and `N := r.st.nodes` the node count it ended with — for whatever reason (soft node
     limit, soft time limit, depth limit, iteration 64, even fuel).  The same search with the hard
@@ -109,6 +112,7 @@ theorem soft_eq_hard (c : Comp σ π) (clock : Clock) {Good : Board → Prop} : 
       (Int.le_refl 0) hp hp clock fuel e b 0 (Int.le_refl 0) rfl
   exact ⟨h.score, h.move, h.ponder, h.st.nodes, h.st.ps, h.full_lines⟩
 
+omit [PsInv σ] in
 /-- The info lines: the hard-budget run prints the lines of the soft-limit run and at most one more,
     the abort notice `info depth d nodes N` (none when output is off, or when the soft limit was hit
     in the last iteration the depth limit / `MaxPlies` allows). -/
@@ -144,7 +148,7 @@ example (K : Keys) (clock : Clock) : C08_full_soft_eq_hard (demoComp K) clock No
 example (K : Keys) (clock : Clock) (fuel : Nat) (e : Engine Unit) (k : Option Nat) :
     (go (demoComp K) { depth := 5, nodes := 100, softNodes := 0, softTime := 0, stop := some 50, ponder := k, output := true }
       clock fuel e Board.empty).st.nodes ≤ 100 :=
-  nodes_le_budget (demoComp K) _ clock (demo_laws K) fuel e Board.empty noMen_empty 0
+  nodes_le_budget (demoComp K) _ clock (demo_laws K) fuel e Board.empty noMen_empty trivial 0
     (show (0 : Int) ≤ 100 by decide) (show (0 : Int) ≤ 100 by decide)
 
 end ChessVerif.Props.C08
